@@ -222,6 +222,8 @@ def _s_binop_raw(name, a, b, dt):
                         return 0
                     if x == 1:
                         return y
+            if UF_MODE and is_sym(a) and is_sym(b):
+                return uf_apply("mul", [a, b], [dt, dt], dt)
             return za * zb
         if name == "max":
             return z3.If(za >= zb if signed else z3.UGE(za, zb), za, zb)
@@ -233,6 +235,8 @@ def _s_binop_raw(name, a, b, dt):
             return za | zb
         if name == "xor":
             return za ^ zb
+        if UF_MODE and name in ("div", "rem") and is_sym(b):
+            return uf_apply("i" + name, [a, b], [dt, dt], dt)
         if name == "div":
             n = bits(dt)
             if signed:
@@ -246,6 +250,8 @@ def _s_binop_raw(name, a, b, dt):
             return z3.If(zb == 0, za, z3.URem(za, zb))
         raise Unsupported(f"int {name}")
     if dt == np.float32:
+        if UF_MODE and name in ("add", "sub", "mul", "div", "max", "min", "rem"):
+            return uf_apply(name, [a, b], [dt, dt], dt)
         if name == "add":
             return z3.fpAdd(RNE, za, zb)
         if name == "sub":
@@ -264,6 +270,29 @@ def _s_binop_raw(name, a, b, dt):
 
 CHEAP_INT = {"add", "sub", "and", "or", "xor", "max", "min"}
 
+# Equivalence mode (C02/C13/C14/C15: two encodings of the SAME repo code are compared): expensive arithmetic on symbolic
+# operands is abstracted by uninterpreted functions.  Sound for proving equalities (unsat under UF => unsat under the
+# real semantics); a sat answer may be spurious and is only believed after replay on the real code.
+UF_MODE = False
+_UFS = {}
+_COMM = {"add", "mul", "max", "min"}
+
+
+def _sort_of(dt):
+    dt = np.dtype(dt)
+    return z3.BoolSort() if dt.kind == "b" else z3.BitVecSort(bits(dt)) if dt.kind in "iu" else F32
+
+
+def uf_apply(name, args, in_dts, out_dt):
+    key = (name, tuple(str(np.dtype(d)) for d in in_dts), str(np.dtype(out_dt)))
+    if key not in _UFS:
+        _UFS[key] = z3.Function("uf_" + "_".join([name] + [str(np.dtype(d)) for d in in_dts] + [str(np.dtype(out_dt))]),
+                                *[_sort_of(d) for d in in_dts], _sort_of(out_dt))
+    zs = [to_z3(a, d) for a, d in zip(args, in_dts)]
+    if name in _COMM and len(zs) == 2 and zs[0].get_id() > zs[1].get_id():
+        zs = [zs[1], zs[0]]
+    return _UFS[key](*zs)
+
 
 def s_binop(name, a, b, dt):
     dt = np.dtype(dt)
@@ -272,6 +301,10 @@ def s_binop(name, a, b, dt):
     k = dt.kind
     if k == "b":
         return _s_binop_raw(name, a, b, dt)
+    if is_sym(a) and is_sym(b) and a.eq(b) and small(a) and (k == "f" or name not in CHEAP_INT):
+        # x op x (e.g. the squares inside a Euclidean norm): tabulate over the ONE operand; treating the two occurrences as
+        # independent would square the (non-relational) value set
+        return tabulate(lambda x: conc_binop(name, x, x, dt), [a], [dt], dt)
     if small(a, b):
         if k == "f" or name not in CHEAP_INT:
             return tabulate(lambda x, y: conc_binop(name, x, y, dt), [a, b], [dt, dt], dt)
@@ -456,10 +489,14 @@ def _s_convert_raw(x, src, dst):
                 return z3.Extract(nd - 1, 0, x)
             return z3.SignExt(nd - ns, x) if sk == "i" else z3.ZeroExt(nd - ns, x)
         if dst == np.float32:
+            if UF_MODE:
+                return uf_apply("i2f", [x], [src], dst)
             return z3.fpSignedToFP(RNE, x, F32) if sk == "i" else z3.fpUnsignedToFP(RNE, x, F32)
     if src == np.float32:
         if dk == "b":
             return z3.Not(z3.fpIsZero(x))
+        if dk in "iu" and UF_MODE:
+            return uf_apply("f2i", [x], [src], dst)
         if dk in "iu":
             # XLA: truncation toward zero; out of range saturates; nan -> 0.  (model in-range only + saturate)
             n = bits(dst)
@@ -618,11 +655,19 @@ class Ctx:
         return SV(out, dt)
 
 
+_KEEPALIVE = []   # z3 AST ids are only stable while the term is referenced: keep every term whose id is used as a memo key
+
+
+def _tid(x):
+    _KEEPALIVE.append(x)
+    return x.get_id()
+
+
 def keyid(sv):
     """hashable identity of a (possibly symbolic) array"""
     if sv.conc:
         return ("c", sv.a.tobytes(), sv.shape)
-    return ("s", tuple(x.get_id() if is_sym(x) else x for x in sv.a.reshape(-1)), sv.shape)
+    return ("s", tuple(_tid(x) if is_sym(x) else x for x in sv.a.reshape(-1)), sv.shape)
 
 
 # ---------------------------------------------------------------- interpreter
@@ -818,7 +863,7 @@ def eval_while(ctx, eqn, ins):
 
 
 def _lane_id(arr):
-    return tuple(x.get_id() if is_sym(x) else ("c", int(x)) for x in arr.reshape(-1))
+    return tuple(_tid(x) if is_sym(x) else ("c", x if isinstance(x, (bool, int)) else float(x)) for x in np.asarray(arr, dtype=object).reshape(-1))
 
 
 def eval_random(ctx, eqn, ins):
@@ -897,7 +942,8 @@ def eval_sym(ctx, eqn, ins):
         dt = a.dtype
         if dt.kind in "iu":
             return [SV(vec1(lambda x: z3.If(x < 0, -x, x) if is_sym(x) else wrap_int(abs(x), dt), a.obj()), odt)]
-        return [SV(vec1(lambda x: z3.fpAbs(x) if is_sym(x) else np.float32(abs(x)), a.obj()), odt)]
+        # value-set operands are tabulated (keeps |x| finite-domain, e.g. jnp.linalg.norm(axis=1) = sqrt(sum(abs(x)**2)))
+        return [SV(vec1(lambda x: (s_unary_f("abs", x, dt) if small(x) else z3.fpAbs(x)) if is_sym(x) else np.float32(abs(x)), a.obj()), odt)]
     if name == "sign":
         a = ins[0]
         dt = a.dtype
@@ -1063,12 +1109,38 @@ def eval_sym(ctx, eqn, ins):
         res = vec2(p, A, B)
         if all(r is not None for r in res.reshape(-1)):
             return [SV(res, odt)]
+    if UF_MODE and name in ("sqrt", "floor", "ceil", "round", "exp", "log", "log1p", "tanh", "logistic", "rsqrt", "sin", "cos", "erf_inv") and ins[0].dtype == np.float32:
+        return [SV(vec1(lambda x: uf_apply(name, [x], [np.float32], np.float32) if is_sym(x) else s_unary_f(name, x, np.float32), ins[0].obj()), odt)]
     if name == "sqrt" and ins[0].dtype == np.float32:
         return [SV(vec1(lambda x: z3.fpSqrt(RNE, x) if is_sym(x) else np.float32(np.sqrt(x)), ins[0].obj()), odt)]
     if name == "floor" and ins[0].dtype == np.float32:
         return [SV(vec1(lambda x: z3.fpRoundToIntegral(z3.RTN(), x) if is_sym(x) else np.float32(np.floor(x)), ins[0].obj()), odt)]
     if name == "is_finite":
         return [SV(vec1(lambda x: z3.Not(z3.Or(z3.fpIsNaN(x), z3.fpIsInf(x))) if is_sym(x) else bool(np.isfinite(x)), ins[0].obj()), odt)]
+    if name == "dot_general":
+        # sum over the contracting dims of the element products, accumulated sequentially in the output dtype
+        # (XLA may associate a float sum differently: last-ulp differences, see sym.differential(ulps=))
+        a, b = ins
+        (ca, cb), (ba, bb) = p["dimension_numbers"]
+        ca, cb, ba, bb = list(ca), list(cb), list(ba), list(bb)
+        A = a.obj() if a.dtype == odt else vec1(lambda x: s_convert(x, a.dtype, odt), a.obj())
+        B = b.obj() if b.dtype == odt else vec1(lambda x: s_convert(x, b.dtype, odt), b.obj())
+        fa = [d for d in range(A.ndim) if d not in ca and d not in ba]
+        fb = [d for d in range(B.ndim) if d not in cb and d not in bb]
+        At, Bt = np.transpose(A, ba + fa + ca), np.transpose(B, bb + fb + cb)
+        bsh, fash, fbsh, csh = At.shape[:len(ba)], At.shape[len(ba):len(ba) + len(fa)], Bt.shape[len(bb):len(bb) + len(fb)], At.shape[len(ba) + len(fa):]
+        if int(np.prod(csh, dtype=np.int64)) == 0:
+            raise Unsupported("dot_general with empty contraction")
+        out = np.empty(tuple(bsh) + tuple(fash) + tuple(fbsh), dtype=object)
+        for bi in np.ndindex(*bsh):
+            for i in np.ndindex(*fash):
+                for j in np.ndindex(*fbsh):
+                    acc = None
+                    for k in np.ndindex(*csh):
+                        t = s_binop("mul", At[bi + i + k], Bt[bi + j + k], odt)
+                        acc = t if acc is None else s_binop("add", acc, t, odt)
+                    out[bi + i + j] = acc
+        return [SV(out, odt)]
     # fallback: finite-domain tabulation or havoc
     return havoc(ctx, eqn, ins)
 
@@ -1082,8 +1154,17 @@ def pair(A, B):
 
 
 def havoc(ctx, eqn, ins):
+    """primitive without a rule: its outputs are fresh variables, memoised on the primitive, its parameters and the
+    identity of its operands (an uninterpreted function), so two encodings of the same computation agree."""
     ctx.stats["havoc"].append(eqn.primitive.name)
-    return [ctx.fresh_arr("havoc_" + eqn.primitive.name, aval_shape(v.aval), np_dtype(v.aval)) for v in eqn.outvars]
+    try:
+        pk = str(sorted((k, str(v)) for k, v in eqn.params.items()))
+    except Exception:  # noqa
+        pk = str(id(eqn))
+    mk = ("havoc", eqn.primitive.name, pk, tuple(keyid(i) for i in ins))
+    if mk not in ctx.memo:
+        ctx.memo[mk] = [ctx.fresh_arr("havoc_" + eqn.primitive.name, aval_shape(v.aval), np_dtype(v.aval)) for v in eqn.outvars]
+    return ctx.memo[mk]
 
 
 def clamp_idx(x, lo, hi, dt):
@@ -1228,6 +1309,11 @@ def gather(ctx, eqn, ins, odt):
     return SV(out, odt)
 
 
+# opt-in (process-wide, set by a harness): compact encoding of scatter, see below.  Default off so that other harnesses'
+# term shapes / timings are untouched.
+COMPACT_SCATTER = False
+
+
 def scatter(ctx, eqn, ins, odt, add):
     operand, indices, updates = ins
     p = eqn.params
@@ -1282,11 +1368,35 @@ def scatter(ctx, eqn, ins, odt, add):
             else:
                 o[sl] = Ub
             return o
-        new = select_cases(cl, build, dt)
+        if COMPACT_SCATTER:
+            # same semantics (the clamped start cases are mutually exclusive), but a cell is only wrapped by the start
+            # combinations whose window covers it: board.at[r, c].set(v) becomes cell(i,j) = ite(r==i & c==j, v, old) instead
+            # of an ite chain over all rows*cols start positions per cell
+            new = src.copy()
+            for combo in itertools.product(*cl):
+                cond = True
+                for c, _ in combo:
+                    cond = b_and(cond, c)
+                start = [0] * src.ndim
+                for j, (_, v) in enumerate(combo):
+                    start[sdod[j]] = v
+                for od, idd in zip(obd, sibd):
+                    start[od] = b[idd]
+                sl = tuple(slice(start[d], start[d] + wshape_full[d]) for d in range(src.ndim))
+                val = vec2(lambda x, y: s_binop("add", x, y, dt), src[sl], Ub) if add else Ub
+                new[sl] = vec2(lambda x, y: ite(cond, x, y, dt), np.asarray(val, dtype=object), new[sl])
+        else:
+            new = select_cases(cl, build, dt)
         if inb is not True:
             new = vec2(lambda x, y: ite(inb, x, y, dt), new, src)
         src = new
     return SV(src, odt)
+
+
+# the implied lemmas below are asserted facts: every query of the job pays for satisfying them even when its goal does not
+# look at the sorted values (Sudoku: 27 nine-element sorts inside the reward, measured 10 s per otherwise trivial query).
+# A harness whose goals never need them may switch them off (process-wide; each job runs in its own process).
+SORT_LEMMAS = True
 
 
 def sort_rule(ctx, eqn, ins):
@@ -1322,6 +1432,15 @@ def sort_rule(ctx, eqn, ins):
                 else:
                     cnt = cnt + int(c)
             ranks.append(cnt)
+        perm_cond = None
+        # implied lemma (a tautology of the definitions above, stated to spare the solver a pigeonhole argument): unless
+        # a float key is NaN, `less` is a strict total order, so the ranks are a permutation of 0..n-1, i.e. every rank
+        # value is taken by some element (otherwise the output chains below fall through to their last operand)
+        if SORT_LEMMAS and n > 2 and any(is_sym(r) for r in ranks) and not any((not is_sym(x)) and x != x for kk in range(nk) for x in rows[kk]):
+            nonan = [z3.Not(z3.fpIsNaN(x)) for kk in range(nk) if ins[kk].dtype.kind == "f" for x in rows[kk] if is_sym(x)]
+            taken = [z3.Or([(ranks[i] == z3.BitVecVal(r, 8)) if is_sym(ranks[i]) else z3.BoolVal(ranks[i] == r) for i in range(n)]) for r in range(n)]
+            ctx.assumptions.append(z3.Implies(z3.And(nonan), z3.And(taken)) if nonan else z3.And(taken))
+            perm_cond = z3.And(nonan) if nonan else z3.BoolVal(True)
         for o, rows_o, inp in zip(outs, rows, ins):
             for r in range(n):
                 val = rows_o[n - 1]
@@ -1331,10 +1450,69 @@ def sort_rule(ctx, eqn, ins):
                         c = ranks[i] == z3.BitVecVal(r, 8)
                     val = ite(c, rows_o[i], val, inp.dtype)
                 o[idx + (r,)] = val
+            # second implied lemma: the output row is a permutation of the input row, so a concrete row of pairwise
+            # distinct integers (the iota operand of argsort) yields pairwise distinct outputs
+            if perm_cond is not None and inp.dtype.kind in "iu" and all(not is_sym(x) for x in rows_o) and len(set(int(x) for x in rows_o)) == n:
+                ctx.assumptions.append(z3.Implies(perm_cond, z3.Distinct(*[to_z3(o[idx + (r,)], inp.dtype) for r in range(n)])))
     return [SV(np.moveaxis(o, -1, dim), i.dtype) for o, i in zip(outs, ins)]
 
 
 # ---------------------------------------------------------------- stubs for jax.random
+def _operand_layout(inner, k, out_rank):
+    """How operand k of a jax.random sampler pjit is broadcast to the output: list m (len out_rank) with m[d] = operand dim
+    feeding output dim d (or None).  Read off the sampler's own broadcast_in_dim equations, so batched (vmap) and unbatched
+    per-element bounds are told apart (their shapes alone can be ambiguous)."""
+    v0 = inner.invars[k]
+    lay = {v0: list(range(len(v0.aval.shape)))}
+    if len(v0.aval.shape) == out_rank:
+        return lay[v0]
+    for e in inner.eqns:
+        n = e.primitive.name
+        src = None
+        for v in e.invars:
+            if not isinstance(v, jax.core.Literal) and v in lay:
+                src = v
+                break
+        if src is None:
+            continue
+        out = e.outvars[0]
+        if n == "convert_element_type" or (n == "pjit" and e.params.get("name") == "clip" and e.invars[0] is src):
+            lay[out] = lay[src]
+        elif n == "broadcast_in_dim":
+            bd, shape = e.params["broadcast_dimensions"], e.params["shape"]
+            new = [None] * len(shape)
+            for i, d in enumerate(bd):
+                new[d] = lay[src][i]
+            lay[out] = new
+        else:
+            continue
+        if len(lay[out]) == out_rank:
+            return lay[out]
+    return None
+
+
+def _bcast_operand(inner, k, operand, oshape):
+    src = operand.obj()
+    if src.ndim == 0:
+        return np.broadcast_to(src, oshape)
+    m = _operand_layout(inner, k, len(oshape))
+    if m is None:
+        if src.shape == tuple(oshape):
+            return src
+        try:
+            return np.broadcast_to(src, oshape)
+        except ValueError:
+            return np.broadcast_to(src.reshape(src.shape + (1,) * (len(oshape) - src.ndim)), oshape)
+    out = np.empty(oshape, dtype=object)
+    for idx in np.ndindex(*oshape):
+        op = [0] * src.ndim
+        for d, j in enumerate(m):
+            if j is not None:
+                op[j] = idx[d] if src.shape[j] != 1 else 0
+        out[idx] = src[tuple(op)]
+    return out
+
+
 def _lane_stub(kind):
     def stub(ctx, eqn, ins):
         key, minval, maxval = ins[0], ins[1], ins[2]
@@ -1344,14 +1522,12 @@ def _lane_stub(kind):
         kshape = keys.shape[:-1]          # batch dims added by vmap (usually ())
         lane_shape = oshape[len(kshape):]
         out = np.empty(oshape, dtype=object)
-        lo = np.broadcast_to(minval.obj() if minval.a.ndim <= len(oshape) else minval.obj(), oshape) if minval.a.ndim == 0 or minval.shape == oshape else None
-        hi = np.broadcast_to(maxval.obj(), oshape) if maxval.a.ndim == 0 or maxval.shape == oshape else None
-        if lo is None or hi is None:
-            # per-lane bounds with batch dims in front
-            lo = np.broadcast_to(minval.obj().reshape(minval.shape + (1,) * (len(oshape) - minval.a.ndim)), oshape)
-            hi = np.broadcast_to(maxval.obj().reshape(maxval.shape + (1,) * (len(oshape) - maxval.a.ndim)), oshape)
+        inner = eqn.params["jaxpr"].jaxpr
+        lo = _bcast_operand(inner, 1, minval, oshape)
+        hi = _bcast_operand(inner, 2, maxval, oshape)
         for b in np.ndindex(*kshape):
-            mk = (kind, _lane_id(keys[b]), lane_shape, str(dt))
+            mk = (kind, _lane_id(keys[b]), lane_shape, str(dt), _lane_id(lo[b] if lane_shape else lo[b:b + 1] if False else np.asarray(lo[b], dtype=object)),
+                  _lane_id(np.asarray(hi[b], dtype=object)))
             new = mk not in ctx.memo
             if new:
                 ctx.memo[mk] = ctx.fresh_arr(kind, lane_shape, dt).a
@@ -1385,7 +1561,59 @@ stub_randint = _lane_stub("randint")
 stub_uniform = _lane_stub("uniform")
 
 
-STUBS = {"_randint": stub_randint, "_uniform": stub_uniform}
+def stub_shuffle(ctx, eqn, ins):
+    """DESIGN 1.4: pjit[name=_shuffle](key, x) -> x[pi] with pi an ARBITRARY permutation (in range, Distinct), memoised on
+    the key.  Over-approximates the one-round sort-by-random-bits implementation (whose rank encoding makes
+    'the drawn cells are distinct' a pigeonhole query: Connector 4x4 reset unknown at 120 s).  Only the unbatched 1-D
+    case is stubbed; any other shape falls back to executing the implementation symbolically."""
+    if len(ins) != 2 or ins[0].a.ndim != 1 or ins[1].a.ndim != 1 or eqn.outvars[0].aval.shape != ins[1].shape:
+        return None
+    key, x = ins
+    n, dt = x.shape[0], x.dtype
+    mk = ("shuffle", _lane_id(key.obj()), n)
+    if mk not in ctx.memo:
+        pi = ctx.fresh_arr("shuffle_pi", (n,), np.int32, 0, n - 1).a
+        if n > 1:
+            ctx.assumptions.append(z3.Distinct(*[to_z3(p, np.int32) for p in pi]))
+        ctx.memo[mk] = pi
+    pi = ctx.memo[mk]
+    xo = x.obj()
+    out = np.empty((n,), dtype=object)
+    ident = x.conc and dt.kind in "iu" and np.array_equal(x.a, np.arange(n))
+    for r in range(n):
+        if ident:
+            out[r] = s_convert(pi[r], np.int32, dt)
+            continue
+        val = xo[n - 1]
+        for i in range(n - 2, -1, -1):
+            val = ite(s_cmp("eq", pi[r], i, np.int32), xo[i], val, dt)
+        out[r] = val
+    return [SV(out, dt)]
+
+
+def stub_gumbel(ctx, eqn, ins):
+    """DESIGN 1.4: pjit[name=_gumbel](key) -> fresh FINITE float32 per element (the implementation is
+    -log(-log(uniform[tiny,1))), always finite), memoised per key lane."""
+    v = eqn.outvars[0]
+    oshape, dt = aval_shape(v.aval), np_dtype(v.aval)
+    if len(ins) != 1 or dt != np.float32:
+        return None
+    keys = ins[0].obj()
+    kshape = keys.shape[:-1]
+    lane_shape = oshape[len(kshape):]
+    out = np.empty(oshape, dtype=object)
+    for b in np.ndindex(*kshape):
+        mk = ("gumbel", _lane_id(keys[b]), lane_shape)
+        if mk not in ctx.memo:
+            blk = ctx.fresh_arr("gumbel", lane_shape, dt).a
+            for x in blk.reshape(-1):
+                ctx.assumptions.append(z3.Not(z3.Or(z3.fpIsNaN(x), z3.fpIsInf(x))))
+            ctx.memo[mk] = blk
+        out[b] = ctx.memo[mk] if lane_shape else ctx.memo[mk][()]
+    return [SV(out, dt)]
+
+
+STUBS = {"_randint": stub_randint, "_uniform": stub_uniform, "_shuffle": stub_shuffle, "_gumbel": stub_gumbel}
 
 
 # ---------------------------------------------------------------- front end
